@@ -67,7 +67,13 @@ def compare_case(ctx, case, exp):
     ok = True
     reals = {}
     for which in ("fsdp", "hsdp"):
-        real = adapter.real_split_recovery(which, case["shape"], case["s"], case["e"], case.get("layout", "contig"))
+        try:
+            real = adapter.real_split_recovery(which, case["shape"], case["s"], case["e"], case.get("layout", "contig"))
+        except Exception as ex:  # noqa: BLE001 -- every case is a flat shard with 0 <= s <= e <= numel: raising on it rejects a valid input
+            ok = False
+            ctx.violation(f"{which} split recovery raised {type(ex).__name__}: {ex} on the valid input {case} (expected {exp})",
+                          {"kind": "split_recovery_oracle", "copy": which, "clause": "raised"}, {"case": case})
+            continue
         reals[which] = real
         proj = [{"off": p["off"], "len": p["len"], "shp": p["shp"]} for p in real]
         if proj != exp:
